@@ -1,4 +1,5 @@
 import B6.Lemmas.VM
+import B6.Lemmas.VMShape
 /-!
 C21 — the VM evaluates programs as the language defines.
 
@@ -14,10 +15,16 @@ stack machine of api/vm.go with the `fixes/C21-*.patch` repairs).  Both are tied
   them).  It is **false** for the code as it is — `closure_escape_panics`, `closure_stale_register`
   are machine-checked witnesses, replayed against the Go code by the harness corpus — because lambda
   parameters live in global registers instead of closures (finding `closure-registers`).
-* `stack_shape`: see below.
+* `stack_shape` (proved, all programs): the compiled code keeps a static stack discipline — taking
+  every call to replace its frame and arguments by one result, no instruction of any target reaches
+  below the frame it was entered with (no `index out of range` on `VM.Stack`), the main target ends
+  with the result on top of the initial frame, every lambda target ends with exactly the result, and
+  every register named by `Store`/`Load` is below `MaxArgs` (no `index out of range` on `VM.Args`).
+  What is *not* proved for programs with lambdas: that the value found in a register is the right
+  one (it is not, see above) — `OpLoad of invalid value` remains reachable.
 -/
 namespace B6.Props.C21
-open B6.Model B6.Model.VM B6.Lemmas.VM
+open B6.Model B6.Model.VM B6.Lemmas.VM B6.Lemmas.VMShape
 
 /-- the full property: for every program the VM's observable outcome is the interpreter's -/
 def vm_correct_statement : Prop :=
@@ -65,15 +72,20 @@ theorem vm_first_order (fuel : Nat) (e : Expr) (h : e.lambdaFree = true) :
     simp [this]
   | true =>
     obtain ⟨is, hc, hlf, _, _⟩ := (key []).1 hw
-    simp only [hc, hl, compileQueue, List.isEmpty_nil, if_true, flatten, entryPoints, List.append_nil]
-    have hall : ([Instr.pushVal (.int 0)] ++ is ++ [.ret]).all isLamFree = true := by
+    simp only [hc, compileQueue, flatten, entryPoints, List.append_nil]
+    have hall : ([Instr.pushVal (.int 0)] ++ is ++ [Instr.ret]).all isLamFree = true := by
       simp [hlf, isLamFree]
     rw [resolveAll_lamFree _ _ hall]
-    simp only [runCode, if_true]
-    obtain ⟨is', hc', _, hexec, _⟩ := (key ([Instr.pushVal (.int 0)] ++ is ++ [.ret])).1 hw
-    have : is' = is := by rw [hc] at hc'; injection hc' with hc'; injection hc' with hc' _; exact hc'.symm
-    subst this
-    simp only [List.singleton_append, List.cons_append, execList]
+    have hexec : ∀ code post S, execList (callFromStack code fuel) (is ++ post) ⟨S, []⟩ =
+        match evalWith (applyFn fuel) [] e with
+        | .ok v => execList (callFromStack code fuel) post ⟨v :: S, []⟩
+        | .error err => .error err := by
+      intro code post S
+      obtain ⟨is', hc', _, hexec, _⟩ := (key code).1 hw
+      have : is' = is := by rw [hc] at hc'; injection hc' with hc'; injection hc' with hc' _; exact hc'.symm
+      subst this
+      exact hexec post S
+    simp only [runCode, List.cons_append, List.nil_append, execList]
     rw [hexec]
     cases evalWith (applyFn fuel) [] e <;> simp [execList]
 
@@ -82,5 +94,78 @@ builtin; `((mix 1) 2) 3 = mix 3 2 1` (trailing arguments are bound first) -/
 example : Expr.lambdaFree (.call (.call (.call (.sym "mix") [.lit (.int 1)] false) [.lit (.int 2)] false) [.lit (.int 3)] false) = true ∧
     interp 10 (.call (.call (.call (.sym "mix") [.lit (.int 1)] false) [.lit (.int 2)] false) [.lit (.int 3)] false)
       = .ok (.int 321) := ⟨rfl, rfl⟩
+
+
+/-! ### the property fails for closures (finding `closure-registers`) -/
+
+private def i (n : Int) : Expr := .lit (.int n)
+private def c (f : Expr) (as : List Expr) : Expr := .call f as false
+
+/-- `((({a b -> {c -> add a c}}) 1) 2) 3` -/
+def escapeWitness : Expr :=
+  c (c (c (.lam ["a", "b"] (.lam ["c"] (c (.sym "add") [.sym "a", .sym "c"]))) [i 1]) [i 2]) [i 3]
+
+/-- `{mk -> call1 (first (pair (call1 mk 1) (call1 mk 2))) 10} {a -> {b -> sub a b}}` -/
+def staleWitness : Expr :=
+  c (.lam ["mk"] (c (.sym "call1")
+      [c (.sym "first") [c (.sym "pair") [c (.sym "call1") [.sym "mk", i 1], c (.sym "call1") [.sym "mk", i 2]]], i 10]))
+    [.lam ["a"] (.lam ["b"] (c (.sym "sub") [.sym "a", .sym "b"]))]
+
+/-- A closure returned by a partially applied lambda is called after `partialCall.CallFromStack`
+restored `vm.Args`: the VM panics (`OpLoad of invalid value`), the language says 5. -/
+theorem closure_escape_panics :
+    VM.run 50 escapeWitness = .error .panic ∧ interp 50 escapeWitness = .ok (.int 5) := ⟨rfl, rfl⟩
+
+/-- Two closures made by the same lambda share its register: the first one sees the second call's
+argument. The VM answers 2 - 10, the language says 1 - 10. -/
+theorem closure_stale_register :
+    VM.run 50 staleWitness = .ok (.int (-8)) ∧ interp 50 staleWitness = .ok (.int (-9)) := ⟨rfl, rfl⟩
+
+theorem vm_correct_counterexample : ¬ vm_correct_statement := by
+  intro h
+  have := h 50 staleWitness
+  rw [closure_stale_register.1, closure_stale_register.2] at this
+  simp [Except.map, Val.obs] at this
+
+/-- both witnesses are in the class the driver reports as the known finding -/
+example : escapeWitness.hasOpenLambda = true ∧ staleWitness.hasOpenLambda = true := ⟨rfl, rfl⟩
+
+/-! ### stack_shape -/
+
+/-- **stack_shape.** Whatever the program, if it compiles, then: the main target, entered on the
+empty stack, never underflows and ends with two entries (the initial frame and the result); every
+lambda target, entered with its arguments and the call frame, never underflows and ends with exactly
+one entry; and every `Store`/`Load` names a register below `MaxArgs`. -/
+theorem stack_shape (e : Expr) (segs : List Segment) (h : compileSegments e = .ok segs) :
+    ∃ main rest, segs = main :: rest ∧
+      depth main.2 0 = some 2 ∧ main.2.all (regOK maxArgs) = true ∧
+      ∀ s ∈ rest, depth s.2 (s.1 + 1) = some 1 ∧ s.2.all (regOK maxArgs) = true := by
+  unfold compileSegments at h
+  cases hc : compileExpr [] e {} with
+  | error err => simp [hc] at h
+  | ok r =>
+    obtain ⟨is, st⟩ := r
+    simp only [hc] at h
+    have sb := compileExpr_shape e [] {} is st hc (by intro p hp; cases hp) ⟨by simp [maxArgs], by intro t ht; cases ht⟩
+    cases hq : compileQueue (e.numLambdas + 1) st with
+    | error err => simp [hq] at h
+    | ok rest =>
+      simp only [hq] at h
+      injection h with h; subst h
+      refine ⟨_, rest, rfl, ?_, ?_, fun s hs => compileQueue_shape _ st rest hq sb.inv s hs⟩
+      · simp only [List.cons_append, List.nil_append, depth]
+        rw [depth_append _ _ _ sb.noret, sb.depth]
+        simp [depth]
+      · simp only [List.all_append, List.all_cons, List.all_nil, Bool.and_true, regOK, Bool.true_and]
+        exact regOK_mono sb.inv.1 _ sb.regs
+
+/-- the compiled array is these targets laid end to end, lambda references resolved to entry points -/
+theorem compile_eq_segments (e : Expr) (segs : List Segment) (h : compileSegments e = .ok segs) :
+    compile e = resolveAll (entryPoints 0 segs) (flatten segs) := by
+  simp [compile, h]
+
+/-- non-vacuity of `stack_shape`: a program with nested lambdas and a partial application compiles to
+three targets -/
+example : (compileSegments staleWitness).map (fun segs => segs.map (·.1)) = .ok [0, 1, 1, 1] := rfl
 
 end B6.Props.C21
